@@ -91,9 +91,10 @@ func (m *Module) handleEntityDelete(ctx context.Context, respond hwebsocket.Resp
 		return err
 	}
 
-	if _, ok := m.currentSession.EntityByID(req.EntityId); !ok {
-		m.state.RemoveEntityActions(req.EntityId)
-	}
+	m.state.RemoveEntityActionsUnless(req.EntityId, func() bool {
+		_, ok := m.currentSession.EntityByID(req.EntityId)
+		return ok
+	})
 
 	return nil
 }
